@@ -13,7 +13,7 @@ PROPERTY = 'C16'
 RULE = ('Formula without unbounded future operators (bounded future, next, all past operators, Boolean, arithmetic) x trace w2 x cut '
         'point m; w1 = w2[0..m). Oracle (metamorphic): offline evaluate(w1)[t] == evaluate(w2)[t] for all t with t + h < |w1|, h = '
         'horizon computed by the harness (next counts 1). Dense-time lane: w1 = w2 restricted to [t0,T], compared at all cell starts and '
-        'midpoints t with t + h < T. Non-trivial = h >= 1, a settled t exists and some unsettled t differs between the runs (padding '
+        'midpoints t with t + h < T. Lane verylong: windows of 33..129 samples, few distinct values (ties), prefix ending shortly after the first windows are complete. Non-trivial = h >= 1, a settled t exists and some unsettled t differs between the runs (padding '
         'happened), or a pure-past formula with m < |w2|; distinct = distinct (formula, w2, m) digests.')
 
 ASSUMPTIONS = [
@@ -32,6 +32,24 @@ def cases(draw, tier):
     n = len(next(iter(c['trace'].values())))
     c['cut'] = draw(st.integers(1, n - 1))
     return c
+
+
+@st.composite
+def verylong_cases(draw, tier):
+    """Windows of 33..129 samples over traces drawn from very few distinct values (ties between the sample that leaves the
+    window and its extremum); the prefix ends shortly after the window of the first samples is complete."""
+    p = NOUNB.copy(max_depth=2, nvars=2)
+    g, vs = draw(F.formulas(p))
+    b = draw(st.sampled_from(list(range(33, 49)) + [63, 64, 65, 66, 70, 96, 127, 128, 129]))
+    a = draw(st.sampled_from([0, 0, 1, 5]))
+    f = ('tun', draw(st.sampled_from(['eventually', 'always', 'eventually', 'always', 'once', 'historically'])), a, b, g)
+    if draw(st.booleans()):
+        f = ('un', 'not', f)
+    h = F.horizon(f) or 0
+    m = h + draw(st.integers(1, 12))
+    n = m + draw(st.integers(1, 12))
+    vals = st.sampled_from([0.0, 1.0, -1.0, 2.0, 3.0, -3.0])
+    return {'formula': f, 'vars': vs, 'trace': {v: draw(st.lists(vals, min_size=n, max_size=n)) for v in vs}, 'cut': m}
 
 
 def check(case):
@@ -161,6 +179,7 @@ def dense_candidates(case):
 
 
 LANES = [
+    Lane('verylong', lambda tier: verylong_cases(tier), check, 200, 3000, candidates),
     Lane('discrete', lambda tier: cases(tier), check, 6000, 80000, candidates),
     Lane('dense', lambda tier: dense_cases(tier), check_dense, 3000, 40000, dense_candidates),
 ]
